@@ -393,8 +393,8 @@ func (e *Engine) RunHarness(pkgPath, fname string, args []int64, maxWall time.Du
 	q0, st0 := e.S.Queries, e.S.Time
 	defer func() {
 		res.Wall = time.Since(t0)
-		res.Queries = e.S.Queries - q0
-		res.SolverTime = e.S.Time - st0
+		res.Queries += e.S.Queries - q0 // (analyses that talk to z3 directly - CheckHB - have already counted theirs)
+		res.SolverTime += e.S.Time - st0
 		for f := range e.funcs {
 			res.Funcs = append(res.Funcs, f)
 		}
